@@ -84,6 +84,24 @@ def gen(tier, rng, shard, nshards):
                 node["args"] = [{"k": "Scaled", "c": 0.5, "arg": a} if not psd else a for a in node["args"]]
                 if psd:
                     node = {"k": "Annot", "name": "PSD", "arg": {"k": "Scaled", "c": 0.5, "arg": node}}
+        if krylov_wish and not psd and dt == "f8" and rng.random() < 0.5:
+            # real symmetric *indefinite* operators (declared SelfAdjoint or not) that reach the Krylov base case as a whole or
+            # as a factor / block: determinants of both signs through Arnoldi
+            def indef(m):
+                sg = rng.choice([-1.0, 1.0], size=m)
+                sg[int(rng.integers(0, m))] = -1.0
+                leaf = {"k": S.pick(rng, ["Dense", "Generic"]), "shape": [m, m], "dt": dt, "seed": S.seed(rng), "gen": "herm",
+                        "eigs": [float(a * b) for a, b in zip(W.lin(0.4, 1.6, m), sg)]}
+                return {"k": "Annot", "name": "SelfAdjoint", "arg": leaf} if rng.random() < 0.7 else leaf
+            form = S.pick(rng, ["whole", "whole", "Kronecker", "BlockDiag", "Product"])
+            if form == "whole":
+                node = indef(n)
+            elif form == "Kronecker":
+                node = {"k": "Kronecker", "via": "ctor", "args": [indef(int(rng.integers(2, 4))), indef(int(rng.integers(1, 4)))]}
+            elif form == "BlockDiag":
+                node = {"k": "BlockDiag", "via": "ctor", "mult": [int(rng.integers(1, 3)), 1], "args": [indef(int(rng.integers(2, 4))), indef(int(rng.integers(1, 4)))]}
+            else:
+                node = {"k": "Product", "via": "ctor", "args": [indef(n), indef(n)]}
         if psd:
             la = S.pick(rng, ["Lanczos", "Arnoldi"] if krylov_wish else [OMIT, "Auto", "Cholesky", "LU", "Lanczos", "Arnoldi"])
         else:
@@ -151,8 +169,14 @@ def run_case(ctx, case):
         # excludes the closed negative real axis, and are judged in double precision only
         near_cut = False
         for sub in _square_subtrees(node):  # structural rules hand sub-expressions to the same Krylov path
-            ev, V = np.linalg.eig(R.dense(sub).M)
-            near_cut = near_cut or bool(np.any((ev.real < 0) & (np.abs(ev.imag) < 0.2 * np.abs(ev))))
+            rs = R.dense(sub)
+            ev, V = np.linalg.eig(rs.M)
+            # (a *real* operator is in regime whatever its spectrum: the projected matrices are real, real eigenvalues come out
+            # exactly real and complex ones in exact conjugate pairs, so every negative eigenvalue contributes the same +i pi and
+            # the pairs cancel.  In complex arithmetic an eigenvalue on the cut gets +-i pi by the sign of a rounding error,
+            # differently for every probe column: recorded finding, see known_findings.json; case flag "force_regime".)
+            if rs.dtype.kind == "c" and not case.get("force_regime"):
+                near_cut = near_cut or bool(np.any((ev.real < 0) & (np.abs(ev.imag) < 0.2 * np.abs(ev))))
             # ... and are defined through an eigendecomposition: (nearly) defective sub-expressions are out of regime
             near_cut = near_cut or not np.isfinite(np.linalg.cond(V)) or np.linalg.cond(V) > 50
         if near_cut or ref.eps > 1e-10:
@@ -193,6 +217,19 @@ def run_case(ctx, case):
             preds["parity"] = "odd" if np.linalg.det(cr.M) < 0 else "even"
         ss, ll = np.linalg.slogdet(cr.M)
         preds["logabs_negative"] = bool(ll < 0)
+        if case["log_alg"] in ("Lanczos", "Arnoldi"):
+            inner = culprit
+            while inner["k"] in ("Transpose", "Adjoint", "Annot", "NoDispatch") and "arg" in inner:
+                inner = inner["arg"]
+            if inner is not culprit:
+                preds["wrapped"] = inner["k"]
+            evs = np.linalg.eigvals(cr.M)
+            preds["negative_real_eigenvalue"] = bool(np.any((evs.real < 0) & (np.abs(evs.imag) <= 1e-9 * np.abs(evs))))
+            preds["complex"] = cr.dtype.kind == "c"
+            got_ = []
+            if isinstance(detail, dict):
+                got_ = list(detail.get("got") or []) + [detail[k_] for k_ in ("logabs", "logdet") if k_ in detail]
+            preds["nonfinite"] = bool(got_ and not all(np.isfinite(complex(g)) for g in got_))
         ctx.check(oracle, False, site=culprit["k"], preds=preds,
                   detail={"detail": detail, "blamed": culprit if R.depth(culprit) <= 1 else R.signature(culprit)})
 
